@@ -26,6 +26,7 @@ Record SF := mkSF {
   no_zero_div : forall a b : sr, mul sr a b = zero sr -> a = zero sr \/ b = zero sr;
   eqz_spec : forall a : sr, eqz a = true <-> a = zero sr;
   div_mul : forall a b : sr, b <> zero sr -> div (mul sr a b) b = a;
+  mul_div : forall a b : sr, b <> zero sr -> mul sr (div a b) b = a;
   one_neq_zero : one sr <> zero sr }.
 
 Section SRFacts.
